@@ -2290,6 +2290,22 @@ impl Cx {
                 let body = self.block(rest, k)?;
                 format!("let {} := {} in\n{}", name, v, body)
             }
+            // `if let Ok(x) = e { .. return .. }` with no else: a success is handled (and returns), an error falls
+            // through to the rest of the block, a panic is a panic
+            Stmt::Expr(Expr::If(i), _) if i.else_branch.is_none() && matches!(&*i.cond, Expr::Let(l) if matches!(&*l.pat, Pat::TupleStruct(ts) if path_last(&ts.path) == "Ok" && ts.elems.len() == 1))
+                && i.then_branch.stmts.last().map(|st| matches!(st, Stmt::Expr(Expr::Return(_), _))).unwrap_or(false) => {
+                let l = match &*i.cond { Expr::Let(l) => l, _ => unreachable!() };
+                let x = match &*l.pat { Pat::TupleStruct(ts) => self.pat_name(&ts.elems[0])?, _ => unreachable!() };
+                let mark = self.binds.len();
+                let (c, kind) = self.expr(&l.expr)?;
+                if kind != Kind::Comp {
+                    return Err(format!("`if let Ok(..)` on something that is not a Result: {}", tokens(&l.expr)));
+                }
+                let c = self.wrap(mark, c);
+                let then_t = self.block(&i.then_branch.stmts, k)?;
+                let rest_t = self.block(rest, k)?;
+                format!("match ({}) with\n| Ok {} =>\n{}\n| Err =>\n{}\n| Panic => Panic\nend", c, x, then_t, rest_t)
+            }
             Stmt::Expr(e, semi) => {
                 let is_mutation = matches!(e, Expr::Assign(_) | Expr::ForLoop(_))
                     || matches!(e, Expr::Binary(b) if matches!(b.op, BinOp::AddAssign(_) | BinOp::BitOrAssign(_) | BinOp::BitAndAssign(_)));
